@@ -71,14 +71,31 @@ example : parse ['^', 'F', '$'] = .ok (.cat (.cat .bol (.chr 'F')) .eol) := by r
 /-- all fields empty except the listed ones -/
 def resOf (l : List (Fld × PR RE)) : Fld → PR RE := fun f => (l.lookup f).getD (.ok .eps)
 
-/-- **F13**: an invalid pattern leaves a nil `*regexp.Regexp`; the first use panics
-(`sources: [{package: "("}]`). -/
-example : evalConjR (resOf [(.package, .error .invalid)]) { pkg := "(" } { pkg := "v" } conjTable = .panic := by decide
+/-- **F13 (repaired, commit e35b228)**: a pattern that does not compile matches nothing — no panic — for every
+identifier (`sources: [{package: "("}]`). -/
+example : evalConjR (resOf [(.package, .error .invalid)]) { pkg := "(" } { pkg := "v" } conjTable = .val false := by decide
 
-/-- …unless an earlier conjunct is already false (short-circuit): no panic, no match
-(`{package: "F", method: "("}` on package `v`). -/
-example : evalConjR (resOf [(.package, .ok (.chr 'F')), (.method, .error .invalid)])
-    { pkg := "F", meth := "(" } { pkg := "v", meth := "f" } conjTable = .val false := by decide
+/-- the same with an invalid pattern in a later field: no match, whatever the earlier conjuncts say -/
+example : evalConjR (resOf [(.package, .ok (.chr 'v')), (.method, .error .invalid)])
+    { pkg := "v", meth := "(" } { pkg := "v", meth := "f" } conjTable = .val false := by decide
+
+/-- no specification, compiled or not, makes the match panic -/
+theorem matchesO_never_panics (spec cid : CodeId) : matchesO spec cid ≠ .panic := by
+  have h : ∀ ts, evalConjR (compile spec) spec cid ts ≠ .panic := by
+    intro ts
+    induction ts with
+    | nil => simp [evalConjR]
+    | cons t ts ih =>
+      simp only [evalConjR]
+      have hc : conjunctR (compile spec) spec cid t ≠ .panic := by
+        unfold conjunctR
+        split <;> simp
+      split
+      · exact ih
+      · rename_i o hne
+        intro h
+        exact hc h
+  exact h conjTable
 
 /-- The `Interface` field of a specification is tested with the **package** regex against the
 identifier's (always empty) `Interface`: `{package: "Fn", interface: "I", method: "Fn"}` does not match
@@ -187,16 +204,16 @@ def invokeSite : Site :=
   { form := .invoke, kind := .call, parent := "p.main", instr := "invoke t3.Get()", reg := "t3",
     callee := { pkgPath := "p/lib", name := "Get", recv := "Getter" }, ifaceType := "p/lib.Getter" }
 
-example : entryCids true "package " (factsOf invokeSite) = [{ ctx := "p.main", pkg := "p/lib", meth := "Get", recv := "t3" }] := by
+example : entryCids true "" (factsOf invokeSite) = [{ ctx := "p.main", pkg := "p/lib", meth := "Get", recv := "t3" }] := by
   decide
 
-/-- calls through function values are identified only by alias identifiers `{Package: "package <path>"}` without
-context (findings C04.04/05) -/
+/-- calls through function values are identified only by alias identifiers `{Package: <path>, Method: name}` without
+context (findings C04.04/05; the "package " prefix of the path was repaired by commit 95e1c24) -/
 def funcValueSite : Site :=
   { form := .funcValue, kind := .call, parent := "p.main", instr := "t6()", reg := "t6",
     callee := { pkgPath := "", name := "" }, impls := [{ pkgPath := "p", name := "source" }] }
 
-example : entryCids true "package " (factsOf funcValueSite) = [{ pkg := "package p", meth := "source" }] := by decide
+example : entryCids true "" (factsOf funcValueSite) = [{ pkg := "p", meth := "source" }] := by decide
 
 /-- bound methods, method expressions and generic instances yield no identifier at the call (the wrapper has no
 package); the call inside the `$bound` / `$thunk` wrapper is the one that is identified -/
@@ -204,7 +221,7 @@ def boundSite : Site :=
   { form := .boundMethod, kind := .call, parent := "p.main", instr := "t7()", reg := "t7",
     callee := { pkgPath := "p", name := "Src", recv := "T" }, wrapperName := "Src$bound" }
 
-example : entryCids true "package " (factsOf boundSite) = [] := by decide
+example : entryCids true "" (factsOf boundSite) = [] := by decide
 
 /-- **Full statement** (sinks, sanitizers, validators on a call with a resolved callee). -/
 def isSink_iff_statement : Prop :=
@@ -299,9 +316,9 @@ def regexName : Fld → String
   | .valueMatch => "valueMatchRegex" | .label => "labelRegex" | .kind => "kindRegex"
 
 /-- the conjuncts of `equalOnNonEmptyFields` in the current source are exactly `CodeId.conjTable` (in order, including
-the package regex run on `Interface`), followed by the `Kind` equality -/
+the package regex run on `Interface`), every regex run through the nil-safe `matchRegex`, followed by the `Kind` equality -/
 theorem gen_matchConj_current :
-    Gen.T10.unparsed = false ∧ Gen.T10.matchKindEq = true ∧
+    Gen.T10.unparsed = false ∧ Gen.T10.matchKindEq = true ∧ Gen.T10.matchHelpers = ["matchRegex"] ∧
     Gen.T10.matchConj = conjTable.map fun t => (regexName t.1, t.2.1.name, t.2.2.name) := by decide
 
 /-- every regex field is compiled from its namesake field of the specification (`CodeId.compile`) -/
